@@ -143,7 +143,14 @@ fn run_case(seed: u64, index: u64, md: &mut Model, rep: &mut Report) {
                     rep.count("events_compared_with_the_transcription_of_encode_update");
                     let mut it = m.split(' ');
                     match (it.next(), it.next()) {
-                        (Some("ok"), Some(hx)) if *hx == crate::model::hex(ev) || md.ask(&format!("DEC update {}", hx)) == md.ask(&format!("DEC update {}", crate::model::hex(ev))) => {}
+                        (Some("ok"), Some(hx)) if *hx == crate::model::hex(ev) || md.ask(&format!("DEC update {}", hx)) == md.ask(&format!("DEC update {}", crate::model::hex(ev))) => {
+                            // ... and the v2 event of the same transaction carries the same blocks and the same delete set
+                            if let Some(ev2) = e2.first() {
+                                let c = md.ask(&format!("DEC same12 {} {}", hx, crate::model::hex(ev2)));
+                                rep.count("v2_events_compared_with_the_transcription_of_encode_update");
+                                if c != "ok same" { disagreements.push(json!({"kind": "encode_update transcription vs the v2 event (DEC same12)", "step": step, "what": what, "answer": c.chars().take(700).collect::<String>(), "model_v1": hx, "impl_v2": crate::model::hex(ev2)})); }
+                            }
+                        }
                         _ => disagreements.push(json!({"kind": "encode_update transcription", "step": step, "what": what, "model": m.chars().take(400).collect::<String>(), "impl": crate::model::hex(ev), "ins": ins, "ds": ds})),
                     }
                 }
